@@ -181,7 +181,8 @@ BuiltEv ==
          notAdmitted == \A i \in integ : laterOk(i) \/ isErr(loads[i].s)
          \* --- C05: lockfile writes: every newly seen remote (non-registry, non-declaration) module and every manifest
          newRemote == { s \in DOMAIN g.slots : g.slots[s].k = "mod" /\ g.slots[s].cls = "js" /\ g.slots[s].mt # "dts" /\ ~IsRegFile(s)
-                          /\ s \in DOMAIN g.sch /\ g.sch[s] \in {"http", "https"} /\ s \in DOMAIN f.sums }
+                          /\ s \in DOMAIN g.sch /\ g.sch[s] \in {"http", "https"}
+                          /\ (s \in DOMAIN f.sums \/ ("staleRedir" \in DOMAIN f /\ s \in SeqToSet(f.staleRedir))) }
          \* the bytes used for s: what the last successful load of s served
          lastServed(s) == LET idx == { i \in contentLoads : loads[i].s = s /\ loads[i].resp = "module" }
                           IN IF idx = {} THEN "no-successful-load" ELSE loads[CHOOSE i \in idx : \A j \in idx : j <= i].served
